@@ -698,7 +698,7 @@ func c12Run(b *core.B) {
 	// without a block must not start carrying the block of a later call
 	if b.Batch == 0 {
 		c12KeptContexts(b)
-	c12ForeignContext(b)
+		c12ForeignContext(b)
 	}
 	// random: 3 fixed parameters and 4-argument calls
 	r := b.Rng(2)
